@@ -69,6 +69,9 @@ CLAIMED["C19"] = ("exploration", "crossed enumeration of split/break calls (netw
 CLAIMED["C05"] = ("exploration", "exhaustive enumeration of single conditional controls and control pairs (thorough: all pairs and reduced triples) x 3 skeletons x 4 demand patterns x step sizes on a small-tank network; consistency invariant evaluated on every reported step with 'ALL' reporting",
     "every control set of the alphabets is simulated; at every reported step every control whose condition is robustly true must find its target in the commanded status / setting (documented exemptions only), and a tank-level threshold whose control changes something must be met within two seconds of tank flow",
     "thresholds are judged only when the reported value is more than 1e-4 away from them; non-converged runs are excluded and counted")
+CLAIMED["C03"] = ("exploration", "deviation-bounded exhaustive enumeration of tiny networks in the common feature set (every single deviation, named pairs, control deviations; thorough: all pairs) x three differential legs: WNTRSimulator vs EpanetSimulator, EpanetSimulator in all ten INP flow units, and a hand-written reference INP text in all ten units run by EPANET through an own ctypes binding vs the same text read by read_inpfile and simulated",
+    "every case is simulated by both engines and compared at every report step within stated tolerances; comparison stops at EPANET's own warnings and near-ties of state-dependent triggers are counted, not judged; unit independence is decided on EPANET runs of the INP files WNTR writes in each of the ten units, reader correctness on an independently written INP text with an own unit table",
+    "6 open known findings (solver start-up with infeasible ACTIVE valves, power pumps); differences below 0.01 m / 2e-5 m3/s and near-tie steps are out of reach; EPANET 2.2 shared library is trusted")
 NOT_YET = "check not built yet in this session (work in progress, see DESIGN.md section 4)"
 
 
